@@ -19,7 +19,10 @@ import ikesa
 from message import Transform
 
 ck = Check('C20', 'model_checking')
-SCEN = C.scenario_list(ck.quick)
+QUICK_SCEN = C.scenario_list(True)
+# thorough: the quick scenarios with every monitor, plus the larger spaces with the plain log monitor and the kernel-refusal
+# re-executions (the send-failure and socket-failure re-executions double the cost of every transition)
+SCEN = QUICK_SCEN if ck.quick else QUICK_SCEN + [dict(s, light=True) for s in C.scenario_list(False)]
 
 # ------------------------------------------------------------------ secrets known to the harness
 SECRETS = {}        # bytes -> kind
@@ -183,7 +186,8 @@ MONITORS = [m_log, m_kfault_log, m_ksock_log, m_sendfail_log]
 
 def run(i):
     note_conf(C.CONFIGS[SCEN[i]['config']]())
-    ex = C.explore(SCEN[i], MONITORS, (), quick=ck.quick, max_states=None if ck.quick else 400000, jobs=0 if ck.quick else ck.jobs)
+    mons = [m for m in MONITORS if not (SCEN[i].get('light') and m in (m_ksock_log, m_sendfail_log))]
+    ex = C.explore(SCEN[i], mons, (), quick=ck.quick, max_states=None if ck.quick else 400000, jobs=0 if ck.quick else ck.jobs)
     sm = ex.summary()
     sm['secrets'] = len(SECRETS)
     sm['secret_kinds'] = sorted(set(SECRETS.values()))
